@@ -93,7 +93,9 @@ func (r *Rng) igcDoc() []byte {
 		}
 		sb.WriteString(a + eol)
 	}
-	sb.WriteString(fmt.Sprintf("HFDTE%02d%02d%02d%s", 1+r.Intn(31), 1+r.Intn(12), r.Intn(100), eol))
+	if !r.chance(1, 8) { // (one file in eight has no date header before its first fixes)
+		sb.WriteString(fmt.Sprintf("HFDTE%02d%02d%02d%s", 1+r.Intn(31), 1+r.Intn(12), r.Intn(100), eol))
+	}
 	if r.chance(1, 3) {
 		sb.WriteString("HFPLTPILOT:Tom Payne" + eol + "HFDTEDATE:220418,01" + eol)
 	}
@@ -259,7 +261,29 @@ func genC19(r *Rng, e *Emitter, n int) {
 				return fmt.Sprintf("(ok %s %s)", hexS(b), sxCoord(tr.LineString.FlatCoords()))
 			}
 			var buf bytes.Buffer
-			if err := igc.NewEncoder(&buf, igc.A(aText)).Encode(geom.NewLineStringFlat(geom.Layout(5), flat)); err != nil {
+			// the destination is a buffer, or something that only has Write (a file, a wrapper of the
+			// caller's): the records arrive in the order they were written
+			var dst io.Writer = &buf
+			var tmp *os.File
+			switch c19ReaderCount % 5 {
+			case 1:
+				dst = writeOnly{&buf}
+			case 3:
+				if f, err := os.CreateTemp("", "verif-igc-w-*"); err == nil {
+					tmp, dst = f, f
+				}
+			}
+			err := igc.NewEncoder(dst, igc.A(aText)).Encode(geom.NewLineStringFlat(geom.Layout(5), flat))
+			if tmp != nil {
+				if err == nil {
+					var data []byte
+					data, err = os.ReadFile(tmp.Name())
+					buf.Write(data)
+				}
+				tmp.Close()
+				os.Remove(tmp.Name())
+			}
+			if err != nil {
 				return "(err other)"
 			}
 			rd, done := c19Reader(buf.Bytes())
@@ -322,6 +346,11 @@ func c19Reader(data []byte) (io.Reader, func()) {
 	}
 	return bytes.NewReader(data), func() {}
 }
+
+// writeOnly hides every method of the buffer but Write.
+type writeOnly struct{ b *bytes.Buffer }
+
+func (w writeOnly) Write(p []byte) (int, error) { return w.b.Write(p) }
 
 var c19Buf bytes.Buffer
 var c19Enc *igc.Encoder
